@@ -7,6 +7,8 @@ import (
 	"fmt"
 	"math/big"
 	"strings"
+	"sync"
+	"sync/atomic"
 
 	"github.com/hyperledger/firefly-signer/pkg/secp256k1"
 	"golang.org/x/crypto/sha3"
@@ -92,7 +94,8 @@ func recReq(key []byte, V, R, S *big.Int, digest []byte, cid int64, expect, vcla
 
 func init() {
 	register(&Suite{
-		Prop: "C05",
+		Prop:     "C05",
+		Parallel: true,
 		Gen: func(c *Ctx) {
 			r := c.R
 			// 1. V normalisation: exhaustive range × chain ids, plus selected large / negative / nil
@@ -195,6 +198,11 @@ func init() {
 					c.Add(map[string]any{"op": "secp.decodecompact", "hex": hx(b65)}, "decodecompact.v")
 				}
 			}
+			// one key pair shared by several goroutines signing different messages: every signature must still verify
+			// and recover to the key's address
+			for k := 0; k < 3; k++ {
+				c.Add(map[string]any{"op": "keccak", "hex": "", "sharedKeyPair": true, "key": hx(genKey(r)), "seed": r.Intn(1 << 30)}, "shared-keypair")
+			}
 			// addresses: random keys plus keys whose public X or Y has a leading zero byte (searched)
 			nAddr := 120
 			if c.Thorough() {
@@ -273,6 +281,36 @@ func init() {
 				}
 				return ok(map[string]any{"V": s.V.String(), "R": s.R.String(), "S": s.S.String()})
 			case "keccak":
+				if req["sharedKeyPair"] == true {
+					kp := secp256k1.KeyPairFromBytes(unhx(str(req, "key")))
+					var bad, panics int64
+					var wg sync.WaitGroup
+					for g := 0; g < 8; g++ {
+						wg.Add(1)
+						go func(g int) {
+							defer wg.Done()
+							defer func() {
+								if rec := recover(); rec != nil {
+									atomic.AddInt64(&panics, 1)
+								}
+							}()
+							for n := 0; n < 150; n++ {
+								msg := []byte(fmt.Sprintf("message %v/%d/%d", req["seed"], g, n))
+								sig, err := kp.Sign(msg)
+								if err != nil {
+									atomic.AddInt64(&bad, 1)
+									continue
+								}
+								a, rerr := sig.Recover(msg, 0)
+								if rerr != nil || *a != kp.Address {
+									atomic.AddInt64(&bad, 1)
+								}
+							}
+						}(g)
+					}
+					wg.Wait()
+					return map[string]any{"shared": true, "bad": bad, "panics": panics}
+				}
 				return hx(keccak(unhx(str(req, "hex"))))
 			case "secp.addr":
 				kp := secp256k1.KeyPairFromBytes(unhx(str(req, "key")))
@@ -302,6 +340,12 @@ func init() {
 					fs = append(fs, Finding{Kind: "mismatch", Region: "prim.secp.pub", Detail: "Lean public key derivation differs from btcec"})
 				}
 			case "keccak":
+				if m, isMap := impl.(map[string]any); isMap && m["shared"] == true {
+					if fmt.Sprint(m["bad"]) != "0" || fmt.Sprint(m["panics"]) != "0" {
+						fs = append(fs, Finding{Kind: "violation", Region: "secp.sign.shared-keypair", Detail: fmt.Sprintf("one key pair used from 8 goroutines: %v of 1200 signatures did not recover to the key's address, %v goroutines panicked", m["bad"], m["panics"])})
+					}
+					return fs
+				}
 				if !same(impl, orc["model"]) {
 					fs = append(fs, Finding{Kind: "mismatch", Region: "prim.keccak", Detail: "Lean Keccak-256 differs from x/crypto/sha3"})
 				}
